@@ -131,7 +131,12 @@ func runNativeFuzz(r *runner) {
 		cmd := exec.Command(bin, "-test.run=^$", "-test.fuzz=^"+name+"$", "-test.fuzztime="+per.String(),
 			"-test.fuzzcachedir="+filepath.Join(work, "fuzzcache"), "-test.parallel=4")
 		cmd.Dir = root
-		cmd.Env = append(os.Environ(), "C07_FUZZ_OUT="+out)
+		cmd.Env = []string{"C07_FUZZ_OUT=" + out}
+		for _, kv := range os.Environ() {
+			if !strings.HasPrefix(kv, "C07_INFLIGHT=") && !strings.HasPrefix(kv, "C07_CHILD=") {
+				cmd.Env = append(cmd.Env, kv)
+			}
+		}
 		done := make(chan struct{})
 		var outb []byte
 		var cerr error
@@ -154,6 +159,19 @@ func runNativeFuzz(r *runner) {
 		r.res.Distribution["fuzz:"+name+":execs"] = execs
 		r.res.Distribution["fuzz:"+name+":corpus"] = interesting
 		r.res.Distribution["fuzz:"+name+":seeds"] = nseed
+		// a fatal error in a worker (stack overflow, out of memory) is caught by the engine, which stores the input
+		crashers, _ := filepath.Glob(filepath.Join(dir, "*"))
+		for _, cf := range crashers {
+			if strings.HasPrefix(filepath.Base(cf), "seed-") {
+				continue
+			}
+			b, _ := os.ReadFile(cf)
+			if len(b) > 2000 {
+				b = b[:2000]
+			}
+			r.res.Violate("fuzz-"+name+"-crash", "native fuzz target "+name+": the engine recorded a failing input (a worker process died or the target failed): "+lastLines(string(outb), 6),
+				map[string]string{"fuzz_target": name, "corpus_entry": string(b)})
+		}
 		if cerr != nil && execs == 0 {
 			r.res.Note("native fuzzing: " + name + " did not run: " + lastLines(string(outb), 4))
 		}
